@@ -26,6 +26,11 @@ fn is_rand(op: &Operation) -> bool {
     matches!(op, Operation::Random(_) | Operation::RandomPermutation(_))
 }
 
+fn short_op(op: &Operation) -> String {
+    let s = format!("{}", op);
+    s.split(|c: char| !c.is_alphanumeric()).next().unwrap_or("").to_string()
+}
+
 fn sends(n: &Node) -> Vec<(u64, u64)> {
     n.get_annotations()
         .unwrap_or_default()
@@ -95,6 +100,23 @@ pub fn check_optimizer(
             continue;
         }
         image_of.entry(img.get_global_id()).or_default().push(n.get_id());
+        // a node that carries send markers and is still mapped keeps them on its image (the image
+        // "carries the same value", so it is the node that has to be sent)
+        if which == "C06" {
+            let mine = sends(n);
+            if !mine.is_empty() {
+                ctx.count("annotated_nodes_mapped", 1);
+                let theirs = sends(&img);
+                if let Some(lost) = mine.iter().find(|sr| !theirs.contains(sr)) {
+                    ctx.violation(
+                        &format!("C06|send_marker_lost|{}->{}", short_op(&op), short_op(&img.get_operation())),
+                        json!({"what": format!("node {} ({}) carries Send{:?}; the mapping sends it to node {} ({}) which does not",
+                                               n.get_id(), op, lost, img.get_id(), img.get_operation()),
+                               "ops": ops, "context": ctx_json()}),
+                    );
+                }
+            }
+        }
         let iop = img.get_operation();
         if matches!(iop, Operation::Constant(_, _)) && !matches!(op, Operation::Constant(_, _)) {
             stats.folded += 1;
